@@ -102,7 +102,31 @@ func (c *Ctx) recordingRule(rule string, fn *ssa.Function, readName string, read
 		notObs := whenCond(false, func(a string) bool {
 			return strings.HasPrefix(a, "call:errors.Is(") && strings.HasSuffix(a, ",global:"+notFound+")")
 		})
-		q2 := &pathQ{fn: fn, from: []ssa.Instruction{r}, to: returnsErrOf(r), via: rec, barrier: anyEdge(readOnly, notObs)}
+		// a key the transaction has written itself (and that was filtered out: deleted by it) is not an observation of the
+		// committed state: the edge on which the lookup in tx.entriesByKey succeeded
+		ownWrite := func(b *ssa.BasicBlock, si int) bool {
+			if len(b.Instrs) == 0 {
+				return false
+			}
+			ifi, ok := b.Instrs[len(b.Instrs)-1].(*ssa.If)
+			if !ok {
+				return false
+			}
+			cond, pol := ifi.Cond, true
+			if u, ok := cond.(*ssa.UnOp); ok && u.Op == token.NOT {
+				cond, pol = u.X, false
+			}
+			ex, ok := cond.(*ssa.Extract)
+			if !ok || ex.Index != 1 {
+				return false
+			}
+			lk, ok := ex.Tuple.(*ssa.Lookup)
+			if !ok || !lk.CommaOk || !hasFieldSuffix(desc(lk.X), "entriesByKey") {
+				return false
+			}
+			return (si == 0) == pol
+		}
+		q2 := &pathQ{fn: fn, from: []ssa.Instruction{r}, to: returnsErrOf(r), via: rec, barrier: anyEdge(readOnly, notObs, ownWrite)}
 		construct = fmt.Sprintf("%s:%s#%d:%s-is-recorded:%s", fnName(fn), readName, i, notFound, field)
 		if w := q2.bypass(); w != nil {
 			c.fail(rule, construct, c.pos(w[len(w)-1].Pos()), "a not-found style answer ("+notFound+" or an error wrapping it) is returned without a read-set record: "+c.witnessStr(w))
@@ -113,6 +137,7 @@ func (c *Ctx) recordingRule(rule string, fn *ssa.Function, readName string, read
 }
 
 func c05(c *Ctx) {
+	c05OwnWritesBeforeFilters(c, "C05.7/own-writes-substituted-before-filters")
 	snapT := "embedded/store.(*Snapshot)."
 	ownWrite := whenCond(false, func(a string) bool { return strings.HasPrefix(a, "(const:0 < call:(embedded/store.ValueRef).Tx") })
 
@@ -855,4 +880,60 @@ func c05FloorIsMax(c *Ctx, r string, f *ssa.Function, call ssa.Instruction, arg 
 	}
 	c.check(len(bad) == 0, r, construct, c.pos(call.Pos()), "the requested floor is kept only on the edge where the mandatory one is not greater",
 		"the requested snapshot floor is passed on without having been compared with the mandatory-MVCC floor (from "+strings.Join(bad, ", ")+"): such a transaction reads data older than the last catalog change")
+}
+
+// c05OwnWritesBeforeFilters: a transaction reads its own pending writes through the "interceptor" of its snapshots,
+// which replaces the value found in the index by the value the transaction is about to write. Filters (ignore deleted,
+// ignore expired) decide about what the reader is GIVEN: applied to the indexed value before the substitution, a key
+// the transaction deleted is still found by it, and a key it re-created over a deleted one is not.
+// Sibling agreement: the key readers substitute first and filter afterwards.
+func c05OwnWritesBeforeFilters(c *Ctx, r string) {
+	n := 0
+	isInterceptorCall := func(v ssa.Value) bool {
+		cl, ok := v.(*ssa.Call)
+		if !ok || cl.Call.IsInvoke() || cl.Call.StaticCallee() != nil {
+			return false
+		}
+		return hasFieldSuffix(desc(cl.Call.Value), "refInterceptor")
+	}
+	for _, f := range c.allFns {
+		if !fnInPkgs(f, []string{"embedded/store"}) || len(f.Blocks) == 0 {
+			continue
+		}
+		k := 0
+		allInstrs(f, false, func(in ssa.Instruction) {
+			cl, ok := in.(*ssa.Call)
+			if !ok || cl.Call.IsInvoke() || cl.Call.StaticCallee() != nil {
+				return
+			}
+			if nt, ok := cl.Call.Value.Type().(*types.Named); !ok || nt.Obj().Name() != "FilterFn" {
+				return
+			}
+			if len(cl.Call.Args) == 0 {
+				return
+			}
+			// does this function substitute own writes at all?
+			has := false
+			allInstrs(f, false, func(x ssa.Instruction) {
+				if v, ok := x.(ssa.Value); ok && isInterceptorCall(v) {
+					has = true
+				}
+			})
+			if !has {
+				return
+			}
+			k++
+			n++
+			// no substitution AFTER the filter was applied to the same entry (a new entry starts with valueRefFrom)
+			q := &pathQ{fn: f, from: []ssa.Instruction{in}, to: func(x ssa.Instruction) bool {
+				v, ok := x.(ssa.Value)
+				return ok && isInterceptorCall(v)
+			}, via: callTo(storeT + "valueRefFrom")}
+			c.check(q.bypass() == nil, r, fmt.Sprintf("%s:filter#%d", fnName(f), k), c.pos(in.Pos()), "the transaction's own write is substituted before the filter is applied, not after",
+				"filters are applied to the value found in the index, the transaction's own pending write is substituted afterwards: a key the transaction deleted is still found by it, a key it wrote over a deleted one is not")
+		})
+	}
+	if n < 4 {
+		c.undecided(r, "floor", fmt.Sprintf("%d filter applications next to an interceptor found (5 confirmed by hand)", n))
+	}
 }
